@@ -699,7 +699,7 @@ Qed.
    core := identity; v = (2, 0), c = 2 *)
 Lemma guarded_normalisation_refuted :
   let sh := {| ns_two_norm := true; ns_unconditional := false; ns_out_of_place := true; ns_first_row := true;
-               ns_scale_once := true; ns_atol_scaled := true |} in
+               ns_scale_once := true; ns_atol_scaled := true; ns_fallback_consistent := true |} in
   let nrmf := fun w : vec KEx.F3 => w 0 in
   let close1 := fun x : KEx.f3 => match x with KEx.a2 => true | _ => false end in
   let v : vec KEx.F3 := fun i => match i with 0 => KEx.a2 | _ => KEx.a0 end in
